@@ -15,6 +15,7 @@ import FunsorVerif.Model.C16
 import FunsorVerif.Gen.C16Table
 import FunsorVerif.Gen.C16Reg
 import FunsorVerif.Props.C16.Reg
+import FunsorVerif.Props.C16.Trans
 namespace FV.Props.C16
 open FV.C16 FV.Gen.C16
 
